@@ -279,7 +279,8 @@ func clampWindow(from, until int64) (int64, int64) {
 
 var signedRefusals = []string{"not-json", "missing-suffix", "missing-signed-data", "missing-reveal", "reveal-other-key", "reveal-malformed",
 	"alg-not-allowed", "alg-missing", "alg-empty", "extra-header", "bad-signature", "signed-by-other-key", "payload-changed-not-resigned",
-	"nonce-wrong-size", "nonce-undecodable", "key-missing-member", "jws-two-segments", "jws-bad-base64", "payload-not-json", "key-curve-not-allowed-or-missing-key"}
+	"nonce-wrong-size", "nonce-undecodable", "key-missing-member", "jws-two-segments", "jws-bad-base64", "payload-not-json", "key-curve-not-allowed-or-missing-key",
+	"reveal-respelled", "reveal-shortened", "header-duplicate-member"}
 
 var deltaProblems = []string{"delta-hash-mismatch", "delta-missing", "delta-empty-patches", "delta-invalid-patch", "delta-unknown-action",
 	"delta-bad-update-commitment", "delta-too-large"}
@@ -300,6 +301,34 @@ func tamperSigned(t *rapid.T, b *opBuild, class string, p protocol.Protocol) []b
 		b.Req["revealValue"] = otherKey(t, b.SignKey).Reveal(b.Alg)
 	case "reveal-malformed":
 		b.Req["revealValue"] = rapid.SampledFrom([]string{"abc", "", "EiA", b.Reveal + "A", strings.Repeat("E", 120)}).Draw(t, "badReveal")
+	case "reveal-respelled":
+		// another base64url spelling that decodes to the same multihash bytes: not the reveal value of the key
+		alt := nonCanonicalTail(b.Reveal)
+		if alt == b.Reveal { // no spare bits (sha2-512)
+			alt = otherKey(t, b.SignKey).Reveal(b.Alg)
+		}
+		b.Req["revealValue"] = alt
+	case "reveal-shortened":
+		// a well-formed multihash of the right algorithm whose length field and digest were shortened together
+		d := refDigest(b.Alg, []byte(refJCS(b.SignKey.JWKValue())))
+		k := rapid.IntRange(0, len(d)-1).Draw(t, "shortLen")
+		b.Req["revealValue"] = b64(refMultihashBytes(b.Alg, d[:k]))
+	case "header-duplicate-member":
+		// RFC 7515 section 4: header parameter names MUST be unique. The honest signature is over the header without the duplicate.
+		hs := headerJSON(b.Header)
+		pl := []byte(refJCS(b.Signed))
+		sig := b.SignKey.Sign([]byte(b64([]byte(hs))+"."+b64(pl)), 0)
+		firsts := []string{`"alg":"none"`, `"alg":"` + fmt.Sprint(b.Header["alg"]) + `"`, `"alg":"HS256"`}
+		if _, ok := b.Header["kid"]; ok {
+			firsts = append(firsts, `"kid":"k"`)
+		}
+		first := rapid.SampledFrom(firsts).Draw(t, "dupMember")
+		dup := "{" + first + "," + hs[1:]
+		if rapid.Bool().Draw(t, "dupLast") && hs != "{}" {
+			dup = hs[:len(hs)-1] + "," + hs[1:]
+		}
+		b.JWS = compactJWS(dup, pl, sig)
+		b.assemble()
 	case "alg-not-allowed":
 		b.Header["alg"] = rapid.SampledFrom([]string{"HS256", "none", "RS256", "es256"}).Draw(t, "badAlg")
 		b.sign()
